@@ -25,7 +25,9 @@ class Scaled:
         kw = self.cfg.kwargs()
         for a in ("mu", "sigma", "beta", "tau"):
             kw[a] = kw[a] * self.k
-        return spaces.model_class(kind)(**kw)
+        m = spaces.model_class(kind)(**kw)
+        spaces.decoy_model(kind)
+        return m
 
 
 def scale_game(g, k):
